@@ -13,12 +13,23 @@ Fixpoint sd_zip_sig (t k : list Z) : list sd_sig :=
   match t, k with x :: t', y :: k' => mk_sd_sig x y :: sd_zip_sig t' k' | _, _ => [] end.
 
 (* [sat] / [skind]: instants and kinds of ALL signals sent, the first (instant 0, a registered kind: it starts the sequence)
-   included; empty lists = only the first signal.
+   included; empty lists = only the first signal. [sync]: 1 for a request whose completion the driver synchronises to the
+   process's own close instant (absent = 0).
    [started] alone when start-up refuses the periods, else
-   [started; close; deadline; exit_time; exit_code] ++ accepted flags ++ completes flags *)
-Definition entry_shutdown (nonneg : bool) (W G : Z) (arr svc sat skind : list Z) : list Z :=
+   [started; close; deadline; exit_time; exit_code] ++ accepted flags ++ completes flags ++ [robust] *)
+Fixpoint sd_zip_sync (l : list sd_req) (s : list Z) : list (sd_req * bool) :=
+  match l with
+  | [] => []
+  | q :: l' => match s with
+               | [] => (q, false) :: sd_zip_sync l' []
+               | x :: s' => (q, negb (x =? 0)) :: sd_zip_sync l' s'
+               end
+  end.
+
+Definition entry_shutdown (nonneg : bool) (W G : Z) (arr svc sat skind sync : list Z) : list Z :=
   let l := sd_zip arr svc in
   let extra := tl (sd_zip_sig sat skind) in
   if negb (sd_startable nonneg W G) then [0] else
   [1; sd_close W; sd_deadline W G; sd_exit_time_x W G l extra; sd_exit_code_x W G l extra]
-  ++ map (fun q => sd_b2z (sd_accepted_x W G l extra q)) l ++ map (fun q => sd_b2z (sd_completes_x W G l extra q)) l.
+  ++ map (fun q => sd_b2z (sd_accepted_x W G l extra q)) l ++ map (fun q => sd_b2z (sd_completes_x W G l extra q)) l
+  ++ [sd_b2z (sd_robust W G (sd_zip_sync l sync))].
